@@ -260,7 +260,7 @@ CHECKS["C12"] = {
     "harnesses": [
         dict(_WS, harness="Harness_C12_multipart", reach=["c12.multipart"], quick={"sample_models": 40, "sample_every": 3}, thorough={"params": {"maxinc": 5}, "sample_models": 80, "sample_every": 29, "workers": 12},
              what="multipartResponseAggregator Add/flush/Done over 1 + 0..3 payloads with a symbolic flush tick at every point: independent multipart parser on the bytes"),
-        dict(_WS, harness="Harness_C12_sse", reach=["c12.sse"], race=True, sched_confirm=True, quick={"params": {"ticks": 1}, "sample_models": 10, "sample_every": 7}, thorough={"params": {"ticks": 1, "maxpayloads": 3}, "workers": 14},
+        dict(_WS, harness="Harness_C12_sse", reach=["c12.sse"], race=True, sched_confirm=True, quick={"params": {"ticks": 1}, "sample_models": 10, "sample_every": 7}, thorough={"params": {"ticks": 1, "maxpayloads": 2, "yield": 1}, "workers": 14},
              what="SSE.Do with 0..2 payloads / rejected operation, keep-alive ticker firing at any scheduling point, every write a preemption point: event grammar, exactly-once, no overlapping writes, race check"),
     ],
 }
@@ -334,3 +334,8 @@ CHECKS["C03"]["harnesses"].append(
 CHECKS["C07"]["harnesses"].append(
     dict(_HTTP, harness="Harness_C07_serverHistory", setup="Setup_C07_serverHistory", reach=["c07.server.history"], quick={"sample_models": 30, "sample_every": 23},
          what="two requests through one Server (13-request corpus: 4 transports x documents x operation names x Accept headers, valid and invalid) x configured response headers x query cache: status, headers, executed operation and body of the second equal a fresh server's answer"))
+
+CHECKS["C12"]["harnesses"].append(
+    dict(_WS, harness="Harness_C12_multipartDo", reach=["c12.multipartdo", "c12.multipartdo.rejected"], race=True, sched_confirm=True,
+         quick={"params": {"ticks": 1, "maxinc": 1}, "sample_models": 10, "sample_every": 7}, thorough={"params": {"ticks": 1, "maxinc": 2}, "workers": 14, "sample_models": 16, "sample_every": 101},
+         what="MultipartMixed.Do as a whole (aggregator goroutine with its real ticker ticking at any scheduling point, payload production and every Write/Flush being scheduling points, response loop, Done, final flush): 1 + 0..1 [2] payloads / rejected operation: multipart grammar, exactly-once, order, closing boundary, ticker goroutine ends, no concurrent use of the ResponseWriter (race check)"))
